@@ -282,6 +282,14 @@ def new_version(data, allow_custom=None, **kwargs):
         else:
             new_obj_inner["allow_custom"] = allow_custom
 
+        # A property named in custom_properties is a requested change too:
+        # the original's value must not take precedence over it.
+        if isinstance(kwargs.get("custom_properties"), Mapping):
+            new_obj_inner = {
+                k: v for k, v in new_obj_inner.items()
+                if k in kwargs or k not in kwargs["custom_properties"]
+            }
+
     # Exclude properties with a value of 'None' in case data is not an instance of a _STIXBase subclass
     return cls(**{k: v for k, v in new_obj_inner.items() if v is not None})
 
